@@ -84,6 +84,9 @@ func (s *jsonStream) next() (any, error) {
 				return []any{s.copyPath()}, nil
 			}
 		} else {
+			if _, ok := token.(json.Number); ok && len(s.states) > 1 && !s.terminated() {
+				return nil, io.ErrUnexpectedEOF
+			}
 			switch s.states[len(s.states)-1] {
 			case jsonStateArrayStart:
 				s.states[len(s.states)-1] = jsonStateArrayValue
@@ -102,6 +105,15 @@ func (s *jsonStream) next() (any, error) {
 			}
 		}
 	}
+}
+
+// terminated reports whether the number token just read was ended by a byte
+// of the input rather than by the end of the input: the decoder has to look at
+// the byte following a number, so that byte is still buffered.
+func (s *jsonStream) terminated() bool {
+	var b [1]byte
+	n, _ := s.dec.Buffered().Read(b[:])
+	return n > 0
 }
 
 func (s *jsonStream) copyPath() []any {
